@@ -510,7 +510,16 @@ fn abort_case() { ABORTED.store(true, Ordering::SeqCst); }
 
 /// Awaits an acknowledgement the way a well-behaved executor would: poll, park until woken, poll again.
 /// It never re-polls without a wake (that would mask a lost wake-up); a stuck wait is classified logically.
+/// Number of harness threads currently inside `await_ack` (so that a hang can be attributed: clients waiting for
+/// acknowledgements that never resolve vs. clients stuck inside an API call).
+pub static AWAITING: std::sync::atomic::AtomicI64 = std::sync::atomic::AtomicI64::new(0);
+struct AwaitingGuard;
+impl Drop for AwaitingGuard { fn drop(&mut self) { AWAITING.fetch_sub(1, Ordering::SeqCst); } }
+pub fn awaiting_now() -> i64 { AWAITING.load(Ordering::SeqCst) }
+
 pub fn await_ack(handle: &CommandAcknowledgementHandle, uid: u64, worker_marks: &ThreadMarks) -> Waited {
+    AWAITING.fetch_add(1, Ordering::SeqCst);
+    let _awaiting = AwaitingGuard;
     let waker = CountingWaker::new();
     let mut seen_wakes = 0u64;
     let started = Instant::now();
